@@ -300,6 +300,7 @@ fn workbooks(rng: &mut Rng, out: &mut UnitResult, unit: u64, i: u64) {
         out.sample(ctxj.clone());
     }
     let x = crate::enc::xlsx::encode(&book, &XlsxChoices::random(rng), rng);
+    out.feat_n("xlsx:xf_without_numFmtId", *x.counts.get("xf_without_numFmtId").unwrap_or(&0));
     out.feat("workbook:xlsx");
     super::c01::check_xlsx(&book, &x, "c10|xlsx", out, &ctxj);
     out.case(Some(hash_bytes(&x.bytes)));
@@ -342,7 +343,7 @@ impl Prop for C10 {
         Some(format!("all admissible token sequences of length <= 3 over {} tokens x 3 section variants; built-in format ids 0..=400", TOKENS.len()))
     }
     fn mandatory(&self, _t: Tier) -> Vec<String> {
-        ["token_sequences<=3", "builtin_ids", "long_formats", "custom_format_id<164", "sampled_long_formats", "workbook:xlsx", "workbook:xlsb", "workbook:xls", "style:Date", "style:Duration", "style:Other", "date1904", "xlsb:BrtCellRk:RkInt", "xlsb:BrtCellReal", "xlsb:BrtFmlaNum", "xls:num:NUMBER", "xls:num:RK:RkInt", "xls:formula:num"]
+        ["token_sequences<=3", "builtin_ids", "long_formats", "custom_format_id<164", "xlsx:xf_without_numFmtId", "sampled_long_formats", "workbook:xlsx", "workbook:xlsb", "workbook:xls", "style:Date", "style:Duration", "style:Other", "date1904", "xlsb:BrtCellRk:RkInt", "xlsb:BrtCellReal", "xlsb:BrtFmlaNum", "xls:num:NUMBER", "xls:num:RK:RkInt", "xls:formula:num"]
             .iter().map(|s| s.to_string()).collect()
     }
     fn run_unit(&self, ctx: &Ctx, unit: u64, out: &mut UnitResult) {
